@@ -1,6 +1,7 @@
 package harness
 
 import (
+	"github.com/buildbarn/bb-storage/pkg/blobstore"
 	"fmt"
 	"strings"
 
@@ -403,6 +404,10 @@ func c13Draw(t *sim.Tape, o c13GenOpts) *c13Case {
 	cs := b.cs
 	g := &c13Gen{t: t, o: o, b: b}
 	cs.Batch = []int{1, 2, 3, 4, 5, 50}[t.Choose(6)]
+	if t.Chance(1, 4) {
+		cs.Configured = true
+		cs.Batch = blobstore.RecommendedFindMissingDigestsCount
+	}
 	nPool := 3 + t.Choose(5)
 	for i := 0; i < nPool; i++ {
 		data := []byte{byte('A' + i), byte(t.Choose(256))}
